@@ -87,6 +87,9 @@ type constDecl struct {
 
 type failure struct{ msg string }
 
+// needPanic: the function turned out to contain a point that can panic at run time
+type needPanic struct{}
+
 func failf(format string, a ...interface{}) {
 	panic(failure{fmt.Sprintf(format, a...)})
 }
@@ -552,7 +555,7 @@ func (ft *ftrans) errTerm() string {
 
 func (ft *ftrans) panicTerm() string {
 	if !ft.f.mayPanic {
-		failf("internal: panic in a function analysed as panic-free")
+		panic(needPanic{}) // translated again with the panic layer in its result type
 	}
 	if ft.joinDepth > 0 {
 		return "none" // inside the value of a joined if: the panic is passed on by the match around it
@@ -1478,7 +1481,11 @@ func (ft *ftrans) ret(s *ast.ReturnStmt, e env) node {
 	// tail call of a function that may panic: its result is the result
 	if len(f.results) == 1 && !f.fallible {
 		if ce, ok := unparen(s.Results[0]).(*ast.CallExpr); ok {
-			if g := ft.calledFn(ce, e); g != nil && g.mayPanic && !g.fallible {
+			g := ft.calledFn(ce, e)
+			if g != nil {
+				ft.t.translate(g)
+			}
+			if g != nil && g.err == "" && g.mayPanic && !g.fallible {
 				var p2 []prelude
 				v := ft.expr(ce, e, &p2)
 				last := p2[len(p2)-1]
@@ -1845,8 +1852,11 @@ func (ft *ftrans) canPanic(x ast.Expr, e env) bool {
 		case *ast.IndexExpr, *ast.SliceExpr:
 			found = true
 		case *ast.CallExpr:
-			if g := ft.calledFn(c, e); g != nil && g.mayPanic {
-				found = true
+			if g := ft.calledFn(c, e); g != nil {
+				ft.t.translate(g)
+				if g.mayPanic {
+					found = true
+				}
 			}
 		}
 		return !found
@@ -2176,53 +2186,6 @@ func (t *translator) analyse(g *fn) {
 	}
 }
 
-// syntactic may-panic analysis: index / slice expressions, callees flagged as panicking, and
-// calls of translated functions that may panic (fixpoint over the configured functions)
-func (t *translator) panicAnalysis() {
-	direct := map[*fn]bool{}
-	calls := map[*fn][]string{}
-	for _, g := range t.order {
-		if g.decl == nil {
-			continue
-		}
-		ast.Inspect(g.decl.Body, func(n ast.Node) bool {
-			switch c := n.(type) {
-			case *ast.IndexExpr, *ast.SliceExpr:
-				direct[g] = true
-			case *ast.CallExpr:
-				name := render(c.Fun)
-				for _, cal := range t.mod.Callees {
-					if cal.Panics && (cal.Go == name || strings.HasSuffix(cal.Go, "."+lastPart(name))) {
-						direct[g] = true
-					}
-				}
-				calls[g] = append(calls[g], lastPart(name))
-			}
-			return true
-		})
-	}
-	for _, g := range t.order {
-		g.mayPanic = direct[g]
-	}
-	for changed := true; changed; {
-		changed = false
-		for _, g := range t.order {
-			if g.mayPanic || g.decl == nil {
-				continue
-			}
-			for _, nm := range calls[g] {
-				for _, h := range t.order {
-					// by name only (no type checker): a method or function of that name that may panic
-					if h.mayPanic && lastPart(h.cfg.Go) == nm {
-						g.mayPanic = true
-						changed = true
-					}
-				}
-			}
-		}
-	}
-}
-
 func lastPart(s string) string {
 	return s[strings.LastIndex(s, ".")+1:]
 }
@@ -2254,6 +2217,26 @@ func (t *translator) translate(g *fn) {
 	if g.err != "" {
 		failf("%s", g.err)
 	}
+	func() {
+		defer func() {
+			if r := recover(); r != nil {
+				if _, ok := r.(needPanic); !ok {
+					panic(r)
+				}
+				g.mayPanic = true
+			}
+		}()
+		g.mayPanic = false
+		t.translateBody(g)
+	}()
+	if g.mayPanic && g.text == "" {
+		t.translateBody(g)
+	}
+}
+
+// translateBody: one attempt with the current value of g.mayPanic
+func (t *translator) translateBody(g *fn) {
+	g.text = ""
 	ft := &ftrans{t: t, f: g, names: map[*ast.Object]string{}, used: map[string]bool{}}
 	e := env{}
 	var ps []string
@@ -2355,7 +2338,6 @@ func main() {
 				}()
 			}
 		}
-		t.panicAnalysis()
 		// completion order = dependency order: a callee is completed inside the translation of its caller
 		for _, g := range t.order {
 			t.translate(g)
